@@ -297,19 +297,22 @@ def check(pid, tier, replay=None):
             shutil.copyfile(DRIVER, dbin); os.chmod(dbin, 0o755)
 
         all_ths = prop_ths + fact_ths
-        discharged = []
+        discharged, unchecked = [], []
         for t in all_ths:
             if t in failed:
                 continue
             ax = axioms.get(t)
             if ax is None:
-                failed.append(t) if t not in failed else None
+                # its module did not build because of another theorem's error
+                unchecked.append(t)
                 continue
             badax = [a for a in ax if a not in ALLOWED_AXIOMS]
             if badax:
                 failed.append(t); notes.append(f"{t} uses axioms {badax}")
                 continue
             discharged.append(t)
+        if unchecked and not failed:
+            failed.append("theorems could not be audited: " + ", ".join(unchecked[:5]))
         if forb:
             failed.append("forbidden construct in Lean sources"); notes += forb[:10]
         for t in failed:
